@@ -77,7 +77,7 @@ def scenario(task):
 def operators(task):
     """derived operators vs definitions"""
     from torchsde._core import base_sde
-    nt, d, m = task
+    nt, d, m, nb = task
     mm = e1.noise_dim(nt, d, m)
     mk = sdes.Maker(symbolic=True, seed=73)
     base = sdes.PolySDE(mk, 'stratonovich', nt, d=d, m=mm, degt=1, degy=2)
@@ -85,15 +85,19 @@ def operators(task):
     bad = []
     n = 0
     t = mk('t', (), values=0.3)
-    y = mk('y', (1, d), values=0.3 + 0.1 * np.arange(d).reshape(1, d))
-    v = mk('v', (1, mm), values=0.2 + 0.1 * np.arange(mm).reshape(1, mm))
-    w = mk('w', (1, mm), values=-0.3 + 0.2 * np.arange(mm).reshape(1, mm))
-    g = base.g(t, y).sym[0]
-    G = np.empty((d, mm), dtype=object)
-    for i in range(d):
-        for j in range(mm):
-            G[i, j] = (g[i] if i == j else ZERO) if nt == 'diagonal' else g[i, j]
-    yn = [f'y_0_{k}' for k in range(d)]
+    y = mk('y', (nb, d), values=0.3 + 0.1 * np.arange(nb * d).reshape(nb, d))
+    v = mk('v', (nb, mm), values=0.2 + 0.1 * np.arange(nb * mm).reshape(nb, mm))
+    w = mk('w', (nb, mm), values=-0.3 + 0.2 * np.arange(nb * mm).reshape(nb, mm))
+    gall = base.g(t, y).sym
+    Gs = []
+    for b in range(nb):
+        g = gall[b]
+        G = np.empty((d, mm), dtype=object)
+        for i in range(d):
+            for j in range(mm):
+                G[i, j] = (g[i] if i == j else ZERO) if nt == 'diagonal' else g[i, j]
+        Gs.append(G)
+    yns = [[f'y_{b}_{k}' for k in range(d)] for b in range(nb)]
 
     def S(terms):
         tot = ZERO
@@ -112,24 +116,26 @@ def operators(task):
         fs = base_sde.ForwardSDE(base, fast_dg_ga_jvp_column_sum=fast)
         gp = fs.g_prod(t, y, v)
         validate(gp, mk.env, 1e-8)
-        check('g_prod', e1.flat_nodes(gp), [S(dag._mul(G[i, j], v.sym[0, j]) for j in range(mm)) for i in range(d)])
+        want_gp = [S(dag._mul(Gs[b][i, j], v.sym[b, j]) for j in range(mm)) for b in range(nb) for i in range(d)]
+        check('g_prod', e1.flat_nodes(gp), want_gp)
         if nt != 'general':
             gp2, gdg = fs.g_prod_and_gdg_prod(t, y, v, w)
-            want = [S(dag._mul(dag._mul(G[l, j], dag.diff(G[i, j], yn[l])), w.sym[0, j]) for j in range(mm) for l in range(d)) for i in range(d)]
+            want = [S(dag._mul(dag._mul(Gs[b][l, j], dag.diff(Gs[b][i, j], yns[b][l])), w.sym[b, j]) for j in range(mm) for l in range(d))
+                    for b in range(nb) for i in range(d)]
             if nt == 'additive':
-                got = [ZERO] * d if not torch.is_tensor(gdg) else e1.flat_nodes(gdg)
+                got = [ZERO] * (d * nb) if not torch.is_tensor(gdg) else e1.flat_nodes(gdg)
             else:
                 validate(gdg, mk.env, 1e-8)
                 got = e1.flat_nodes(gdg)
             check('gdg_prod', got, want)
-            check('g_prod (from g_prod_and_gdg_prod)', e1.flat_nodes(gp2), [S(dag._mul(G[i, j], v.sym[0, j]) for j in range(mm)) for i in range(d)])
+            check('g_prod (from g_prod_and_gdg_prod)', e1.flat_nodes(gp2), want_gp)
         if nt == 'general':
-            Ax = mk('Ax', (1, mm, mm), values=0.1 * np.arange(mm * mm).reshape(1, mm, mm))
+            Ax = mk('Ax', (nb, mm, mm), values=0.1 * np.arange(nb * mm * mm).reshape(nb, mm, mm))
             A = Ax - Ax.transpose(-1, -2)
             out = fs.dg_ga_jvp_column_sum(t, y, A)
             validate(out, mk.env, 1e-8)
-            As = A.sym[0]
-            want = [S(dag._mul(dag._mul(dag.diff(G[i, l], yn[j]), G[j, k]), As[k, l]) for j in range(d) for k in range(mm) for l in range(mm)) for i in range(d)]
+            want = [S(dag._mul(dag._mul(dag.diff(Gs[b][i, l], yns[b][j]), Gs[b][j, k]), A.sym[b][k, l]) for j in range(d) for k in range(mm) for l in range(mm))
+                    for b in range(nb) for i in range(d)]
             check(f'dg_ga_jvp_column_sum_v{2 if fast else 1}', e1.flat_nodes(out), want)
     return dict(task=task, bad=bad[:3], identities=n, queries=Zc.queries, solver_s=Zc.solver_s)
 
@@ -150,7 +156,7 @@ def run(ctx):
            'ForwardSDE.dg_ga_jvp_column_sum_v1 / _v2', 'misc.jvp / vjp / batch_mvp')
     ctx.stubs.append('Brownian motion: stub keyed by interval')
     ctx.bounds = {'interface variants': ['f+g (baseline)'] + VARIANTS, 'solvers': 'every accepted (sde_type, method, noise_type, grad_free)', 'steps': '2 + interpolated output',
-                  'derived operators': 'd=2, m=2, all four noise types, both dg_ga_jvp implementations'}
+                  'derived operators': 'd=2, m=2 (and m=3 for general), batch 2, all four noise types, both dg_ga_jvp implementations'}
     ctx.assumptions += ['user-supplied g_prod / f_and_g_prod are written with the same kernels the library uses (g*v, bmm)',
                         'DAG comparison modulo 1*x, 0*x, x+0 (exact for finite floats)']
     ctx.outside += ['sizes above the bound']
@@ -170,9 +176,9 @@ def run(ctx):
         ctx.violation(f"{t[0]},{t[1]},{t[2]}{gf}|interface|{v}", f"interface variant {v}: {o}", replay=dict(kind='interface', task=[t[0], t[1], t[2], t[3], t[4], t[5]], variant=v))
     ctx.sample({'solver configurations': len(tasks), 'variant runs identical to the baseline': nid})
     ctx.twin('twin: at least one variant run must end in the explicit missing-method error and one must be identical', nid > 0)
-    ot = [('diagonal', 2, 2), ('scalar', 2, 2), ('additive', 2, 2), ('general', 2, 2)]
+    ot = [('diagonal', 2, 2, 2), ('scalar', 2, 2, 2), ('additive', 2, 2, 2), ('general', 2, 2, 2), ('general', 2, 3, 2)]
     for t, (st_, res) in zip(ot, pmap(operators, ot)):
-        name = f"derived operators noise={t[0]}"
+        name = f"derived operators noise={t[0]} d={t[1]} m={t[2]} batch={t[3]}"
         if st_ != 'ok':
             ctx.inconc(name, str(res)[:500]); continue
         ctx.paths += 1; ctx.queries += res['queries']; ctx.solver_s += res['solver_s']
@@ -210,7 +216,7 @@ def replay(data):
         return not torch.equal(outs[0], outs[1])
     # operators: numeric check of the definition by finite differences of g at the model point
     from torchsde._core import base_sde
-    nt, d, m = r['task']
+    nt, d, m, nb = r['task']
     mm = e1.noise_dim(nt, d, m)
     mk = sdes.Maker(symbolic=False, env=r.get('model') or {}, seed=73)
     base = sdes.PolySDE(mk, 'stratonovich', nt, d=d, m=mm, degt=1, degy=2)
